@@ -312,7 +312,7 @@ def run(F, tier, res):
         oks += 1
     else:
         res.violate('SLOTS', 'third-colour', 'a third colour in a style string is not rejected', where=F.bodies[P]['mir']['span']['at'])
-    res.rule('C12.SLOTS', ns, 5, 'writes to .foreground/.background in the parser (positional guards) + third-colour rejection', discharged=oks)
+    res.rule('C12.SLOTS', ns, 3, 'writes to .foreground/.background in the parser (positional guards) + third-colour rejection', discharged=oks)
 
     # ---------- COLOURS
     nc = okc = 0
@@ -485,6 +485,6 @@ def run(F, tier, res):
     for s in sites:
         if s['verdict'] != 'insensitive':
             res.violate('E4', 'fn=%s;iter=%s;verdict=%s' % (s['fn'], s['callee'].split('::')[-1], s['verdict']), 'the printed form of a style depends on hash iteration order: %s' % s['why'], where=s['where'])
-    res.rule('C12.E4', len(sites), 1, 'hash iterations reachable from Display for Style', discharged=sum(1 for s in sites if s['verdict'] == 'insensitive'))
+    res.rule('C12.E4', len(sites), 0, 'hash iterations reachable from Display for Style', discharged=sum(1 for s in sites if s['verdict'] == 'insensitive'))
     res.distinct.update(r['rule'] for r in res.rules)
     return res
